@@ -572,6 +572,17 @@ def v4_spec_score(sb, om, spec, lookup, case):
     zk = list(spec["zero_if_all_N"])
     zs = sorted(set(eff[k] for k in zk))
     sl, rows = fo.rows(zs)
+    if rows is None:
+        # more joint classes than the general folding limit (a variant of m() with further classes):
+        # this one table is still small enough to enumerate
+        import itertools
+
+        n_rows = 1
+        for s_ in sl:
+            n_rows *= len(fo.domain(s_))
+        if n_rows > 400000:
+            raise AnalysisError("C02.tail", "the zero shortcut depends on too many effective-value classes to tabulate (%s)" % (zs,))
+        rows = list(itertools.product(*[fo.domain(s_) for s_ in sl]))
     tab = {}
     for r in rows:
         env = class_env(om, spec, zk, sl, r)
